@@ -67,7 +67,7 @@ _COMBINATORS = {
     "and_then": (("Ok", "Some"), "recv", "closure"),
     "map": (("Ok", "Some"), "recv", "pos"),
     "inspect": (("Ok", "Some"), "recv", "pos"),
-    "filter": (("Some",), "recv", None),
+    "filter": (("Some",), "recv", "filter"),
     "is_some_and": (("Some",), "false", "closure"),
     "is_ok_and": (("Ok",), "false", "closure"),
     "is_none_or": (("Some",), "true", "closure"),
@@ -607,6 +607,16 @@ class EGraph:
                 if l - 1 < len(args):
                     return self.prov_operand(inst.parent, args[l - 1])
             if inst.kind == "closure":
+                # the argument of a closure run by a single-call Option/Result combinator is the receiver's payload
+                first = 2 if inst.body["kind"] == "Closure" else 1
+                if l == first and inst.parent is not None:
+                    pt = inst.parent.body["blocks"][inst.call_bb]["term"]
+                    c_ = pt.get("callee") or {}
+                    m_ = _COMBINATOR_RX.search(c_.get("path", "")) if pt.get("args") else None
+                    if m_ and len(self.closure_insts.get((inst.parent.id, inst.call_bb), [])) == 1 and m_.group(2) != "map_or":
+                        trig = _COMBINATORS[m_.group(2)][0]
+                        recv = self.prov_operand(inst.parent, pt["args"][0])
+                        return ("okval", recv) if ("Ok" in trig or "Some" in trig) else ("errval", recv)
                 if inst.body["kind"] != "Closure":
                     return ("cl_arg", inst.id, l + 1)      # a fn item used as a callback has no environment argument
                 if l == 1:
@@ -1137,6 +1147,14 @@ class Product:
                                     for rel, v in self._subtags(tags, (inst.id, 0, ())):
                                         if len(dslot[2]) + len(rel) <= 3:
                                             nt[(dslot[0], dslot[1], dslot[2] + rel)] = v
+                                elif after == "filter":
+                                    # Some(x) iff the predicate said true
+                                    if r is not None and r[0] in ("true", "false"):
+                                        nt[dslot] = ("Some" if r[0] == "true" else "None", r[1])
+                                    elif r is not None and r[0] == "?":
+                                        nt[dslot] = ("?", ("some_iff", r[1]))
+                                    else:
+                                        nt[dslot] = ("?", ("call", cn))
                                 elif after == "pos":
                                     nt[dslot] = ("Ok" if "Result<" in dty else "Some", ("call", cn))
                                 elif after == "neg":
@@ -1588,7 +1606,13 @@ def norm_learn(learn):
     out = []
     for origin, var in learn:
         o, v = origin, var
-        while isinstance(o, tuple) and o and o[0] in ("is_ok", "is_err", "is_some", "is_none", "not"):
+        while isinstance(o, tuple) and o and o[0] in ("is_ok", "is_err", "is_some", "is_none", "not", "some_iff"):
+            if o[0] == "some_iff":
+                # `opt.filter(pred)` turned out Some: the predicate held (None says nothing: the receiver may have been None)
+                if v != "Some":
+                    break
+                o, v = o[1], "true"
+                continue
             if v not in ("true", "false"):
                 break
             if o[0] == "not":
